@@ -376,7 +376,9 @@ def run(chk):
     chk.rule = ("enumerated: every binary operator x every ordered pair from a pool of %d values of all JSON types "
                 "(near-duplicates 1/1.0/True/'1', big ints, NaN/inf, date-like strings, containers, datetimes) x "
                 "lax/strict x operand placement (attribute reference / literal); time operators over in-grammar and "
-                "malformed ISO strings, epoch numbers incl. range edges and rounding ties; and/or/not over every "
+                "malformed ISO strings, epoch numbers incl. range edges and rounding ties; between with attribute references "
+                "inside the range pair / the range itself a reference (directly and through the engine); hasAll/hasAny/in/"
+                "contains over collections with nested list / object members in every position; and/or/not over every "
                 "tuple of <=3 leaves incl. ill-typed ones + random trees; resolve paths; multi-key objects; rule-level "
                 "type-mismatch skipping under all algorithms; relmix: and/or/not trees (every shape with <=3 operands, one "
                 "level of nesting, + random deeper ones) whose operands are `rel` lookups answered true/false by a "
